@@ -16,12 +16,18 @@ shows a codec call can reach:
 * the mutable default arguments (`Burst.full_bits`, `CSBK.broadcast_params`, `DataHeader.bit_padding`,
   `ServiceOptions.reserved`, `RadioControlProtocol.status_change_settings`),
 * the class-level LRRP token / attribute tables,
-* the `has_more_headers` flag of a TMS first header, which `as_bytes` rewrites, and `MBXML.DEBUG`.
+* the `has_more_headers` flag of a TMS first header, which `as_bytes` rewrites, and `MBXML.DEBUG`,
+* the wall clock the interpreter showed when the package was imported (`importClock`: what a class attribute, default argument
+  or module constant computed from `date.today()` at import would have frozen; the code reads it into the default
+  `GPSData.zero()` only, no parser does).
 
 Every modelled entry point is `step : S → Call → S × Out × Call`: new state, result, and the call *with its
 argument buffers as the Python leaves them* (only the documented in-place Hamming repair changes them).
 `pureOut : Call → Out` is the history-free function: it never sees `S`, it reads the initial tables only.
 `stepBuggy` mirrors the code before the repairs d571898 / a980052 / 2d27283 (counter-examples in Props/C19).
+`stepUnsafe` is NOT code that ever existed: two hazards the model makes explicit - a conversion that hands back its argument
+for one accepted form (so that the in-place `+=` of `CRC9.calculate_from_parts` lands in the caller's buffer) and a two-digit
+year completed with the century of the import clock.
 Core Lean only (compiled into the driver).
 -/
 
@@ -198,6 +204,8 @@ structure S where
   tmsFlag : Bool
   /-- `MBXML.DEBUG` -/
   mbxmlDebug : Bool
+  /-- the year the wall clock showed when the package was imported -/
+  importClock : Nat
 
 def cfgOfShared (t : Nat × Nat × Nat × Nat × Bool × Bool × Nat × Bool) : CrcCfg :=
   { width := t.1, poly := t.2.1, init := t.2.2.1, xorOut := t.2.2.2.1, revIn := t.2.2.2.2.1, revOut := t.2.2.2.2.2.1 }
@@ -225,6 +233,39 @@ def init : S where
   attrDefs := Gen.PurityInit.lrrpAttributes.flatten.map (fun t => { aid := t.1, name := t.2.1, preset := t.2.2 })
   tmsFlag := false
   mbxmlDebug := false
+  importClock := 2026
+
+/-! ## forms of a buffer argument (`utils/bits_bytes.py: bytes_to_bits`) -/
+
+/-- the forms in which a caller may hand over what a signature calls `bytes`: `bitarray.frombytes` (inside `bytes_to_bits`)
+accepts everything with the buffer protocol.  `octets`: bytes / bytearray / memoryview (given here as the bits of the octets,
+most significant first); `bits little`: a `bitarray` of that bit order, whose buffer octets are read -/
+inductive BufForm
+  | octets
+  | bits (little : Bool)
+deriving DecidableEq, Repr
+
+/-- `bytes_to_bits(payload, endian="big")`: a NEW bit array read from the buffer octets of the payload.  A bit array that does
+not fill its last octet is padded (the pad bits of the buffer, zero here; the harness compares whole octets only); the buffer
+of a little-endian bit array holds every octet in the opposite bit order -/
+def convBig (form : BufForm) (data : Bits) : Bits :=
+  let padded := data ++ List.replicate ((8 - data.length % 8) % 8) false
+  match form with
+  | .octets => padded
+  | .bits false => padded
+  | .bits true => byteReverse padded
+
+/-- the bit array `CRC9.calculate_from_parts` computes over: converted data, then the CRC-32 octets, then the 7-bit serial number
+(`source_data += …` twice: IN PLACE on whatever `bytes_to_bits` handed back) -/
+def crc9Source (form : BufForm) (data : Bits) (sn : Nat) (crc32 : Option Bytes) : Bits :=
+  convBig form data ++ (match crc32 with | some b => bytesToBits b | none => []) ++ natToBits 7 sn
+
+/-! ## dates (`hytera/pdu/location_protocol.py: GPSData`) -/
+
+def isLeap (y : Nat) : Bool := y % 4 == 0 && (y % 100 != 0 || y % 400 == 0)
+
+def daysIn (y m : Nat) : Nat :=
+  if m == 2 then (if isLeap y then 29 else 28) else if m == 4 || m == 6 || m == 9 || m == 11 then 30 else 31
 
 /-! ## calls and results -/
 
@@ -257,6 +298,11 @@ inductive Call
   | getToken (req : Bool) (name : Key) (attrs : List (Key × Option Nat))
   /-- `TextMessagingService.as_bytes()` on a kept object: (more headers follow, acknowledged, reserved, control, type bits, rest) -/
   | tmsAsBytes (more ack res ctl : Bool) (ty : Nat) (body : Bytes)
+  /-- `CRC9.calculate_from_parts(data, serial_number, mask, crc32)` with `data` handed over in one of the accepted forms
+  (`mask`: the value of the CRC mask; `crc32`: `None` or octets) -/
+  | crc9Parts (form : BufForm) (data : Bits) (sn mask : Nat) (crc32 : Option Bytes)
+  /-- the date of `GPSData.from_bytes`: six ASCII digits day, month, two-digit year -/
+  | gpsDate (dd mm yy : Nat)
 deriving DecidableEq
 
 inductive Out
@@ -295,6 +341,21 @@ def tmsHeaderByte (more ack res ctl : Bool) (ty : Nat) : Nat :=
 def tmsBytes (more ack res ctl : Bool) (ty : Nat) (body : Bytes) : Bytes :=
   let n := body.length + 1
   [n / 256 % 256, n % 256, tmsHeaderByte more ack res ctl ty] ++ body
+
+/-- `datetime.date(year, month, day)`: `ValueError` unless the day exists -/
+def mkDate (y m d : Nat) : Out :=
+  if 1 ≤ y && y ≤ 9999 && 1 ≤ m && m ≤ 12 && 1 ≤ d && d ≤ daysIn y m then .nat (y * 10000 + m * 100 + d) else .err "ValueError"
+
+/-- `ba2int(~checksum) ^ mask.value` of `CRC9.calculate` -/
+def crc9Value (mask : Nat) : Out → Out
+  | .bits b => .nat (bitsToNat (b.map not) ^^^ mask)
+  | o => o
+
+/-- the checks of `calculate_from_parts` in the order the code makes them: `assert len(crc32) == 4`, then `int2ba(serial_number, length=7)` -/
+def crc9Guard (sn : Nat) (crc32 : Option Bytes) : Option Out :=
+  if (match crc32 with | some b => b.length != 4 | none => false) then some (.err "AssertionError")
+  else if sn ≥ 128 then some (.err "OverflowError")
+  else none
 
 def codeOp (codes : List Code) (i : Nat) (len : Code → Nat) (x : Bits) (f : Code → Out) : Out :=
   match codes[i]? with
@@ -337,6 +398,15 @@ def stepHamCac (s : S) (i : Nat) (w : Bits) : S × Out × Call :=
   | .flagBits ok b => (s, .flagBits ok b, .hamCac i b)
   | o => (s, o, .hamCac i w)
 
+/-- `CRC9.calculate_from_parts`: the conversion builds a new bit array whatever the form of `data`, the appends go there, the
+shared CRC-9 calculator (index 1) does the rest; the caller's `data` is left as it was -/
+def stepCrc9Parts (s : S) (form : BufForm) (data : Bits) (sn mask : Nat) (crc32 : Option Bytes) : S × Out × Call :=
+  match crc9Guard sn crc32 with
+  | some e => (s, e, .crc9Parts form data sn mask crc32)
+  | none =>
+    ((stepCrcShared s 1 (crc9Source form data sn crc32) false).1,
+      crc9Value mask (stepCrcShared s 1 (crc9Source form data sn crc32) false).2.1, .crc9Parts form data sn mask crc32)
+
 /-- one call on the state, mirroring what the Python reads and writes -/
 def step (s : S) : Call → S × Out × Call
   | .crcShared k data little => stepCrcShared s k data little
@@ -358,6 +428,9 @@ def step (s : S) : Call → S × Out × Call
   | .tmsAsBytes more ack res ctl ty body =>
     -- `self.header.set_has_more_headers(more)` overwrites the flag with a value computed from the other fields
     ({ s with tmsFlag := more }, .bytes (tmsBytes more ack res ctl ty body), .tmsAsBytes more ack res ctl ty body)
+  | .crc9Parts form data sn mask crc32 => stepCrc9Parts s form data sn mask crc32
+  -- `year=2000 + int(greenwich_date[4:6])`: a constant century, `s.importClock` is not read
+  | .gpsDate dd mm yy => (s, mkDate (2000 + yy) mm dd, .gpsDate dd mm yy)
 
 /-! ## the history-free functions: no `S` anywhere -/
 
@@ -375,6 +448,11 @@ def pureHamCac (i : Nat) (w : Bits) : Out :=
   if i ≥ 5 then .err "no-such-code"
   else codeOp theCodes i (·.n) w (fun C => .flagBits (C.checkAndCorrect w).1 (C.checkAndCorrect w).2)
 
+def pureCrc9Parts (form : BufForm) (data : Bits) (sn mask : Nat) (crc32 : Option Bytes) : Out :=
+  match crc9Guard sn crc32 with
+  | some e => e
+  | none => crc9Value mask (pureCrcShared 1 (crc9Source form data sn crc32) false)
+
 def pureOut : Call → Out
   | .crcShared k data little => pureCrcShared k data little
   | .crcNew cfg table data little => pureCrc cfg table data little
@@ -391,6 +469,8 @@ def pureOut : Call → Out
   | .rcpDefault => .bytes (rcpPayload Gen.PurityInit.rcpDefaultSettings)
   | .getToken req name attrs => .tok (getTokenAux init.attrDefs name attrs (initTokens req) 0).1
   | .tmsAsBytes more ack res ctl ty body => .bytes (tmsBytes more ack res ctl ty body)
+  | .crc9Parts form data sn mask crc32 => pureCrc9Parts form data sn mask crc32
+  | .gpsDate dd mm yy => mkDate (2000 + yy) mm dd
 
 /-- the buffer `check_and_correct` leaves in its argument -/
 def cacBuffer (i : Nat) (w : Bits) : Bits :=
@@ -479,6 +559,26 @@ def stepBuggy (s : S) : Call → S × Out × Call
     (r.1, r.2.1, .crcNew cfg table (fedBits cfg data) little)
   | .byteswap data =>
     (s, .bytes (byteswap data), .byteswap (if data.length % 2 == 0 then byteswap data else data))
+  | c => step s c
+
+/-! ## two hazards that are NOT in the code (for the counter-examples of Props/C19) -/
+
+/-- as `step`, but
+* `bytes_to_bits` hands back its payload AS IT IS when that already is a bit array of the requested bit order on whole octets
+  ("nothing to unpack") - the `source_data += …` of `calculate_from_parts` then grow the caller's buffer (also when `int2ba`
+  raises afterwards: the CRC-32 octets are appended before);
+* the two-digit GPS year is completed with the century of the clock at import (`CENTURY = date.today().year // 100 * 100`) -/
+def stepUnsafe (s : S) : Call → S × Out × Call
+  | .crc9Parts form data sn mask crc32 =>
+    let r := step s (.crc9Parts form data sn mask crc32)
+    if form == .bits false && data.length % 8 == 0 then
+      let grown :=
+        if (match crc32 with | some b => b.length != 4 | none => false) then data
+        else if sn ≥ 128 then data ++ (match crc32 with | some b => bytesToBits b | none => [])
+        else crc9Source form data sn crc32
+      (r.1, r.2.1, .crc9Parts form grown sn mask crc32)
+    else r
+  | .gpsDate dd mm yy => (s, mkDate (s.importClock / 100 * 100 + yy) mm dd, .gpsDate dd mm yy)
   | c => step s c
 
 end Dmr.Purity
